@@ -75,7 +75,9 @@ struct Entry {
     ctx: u8,
 }
 
-const CAP: usize = 1 << 17;
+// under Miri a smaller table (every static byte is interpreted)
+const CAP_BITS: usize = if cfg!(miri) { 12 } else { 17 };
+const CAP: usize = 1 << CAP_BITS;
 const EMPTY: Entry = Entry {
     addr: 0,
     size: 0,
@@ -98,7 +100,7 @@ static TABLE: Table = Table {
 
 #[inline]
 fn slot_of(addr: usize) -> usize {
-    ((addr >> 3).wrapping_mul(0x9E37_79B9_7F4A_7C15usize)) >> (usize::BITS as usize - 17)
+    ((addr >> 3).wrapping_mul(0x9E37_79B9_7F4A_7C15usize)) >> (usize::BITS as usize - CAP_BITS)
 }
 
 struct Locked;
